@@ -56,15 +56,16 @@ def make_targets(lab):
             return (i for i in range(n))
 
         @P.oneway
-        def otrack(self, rid):
+        def otrack(self, rid, cid):
             # the same through a oneway call, which the daemon runs in a thread of its own on behalf of that connection
+            # (the caller says which connection it is: what the application asked for is recorded before the library is asked)
+            lab.log.append({"e": "Track", "c": cid, "r": rid})
             lab.current_context.track_resource(lab.resources[rid])
-            lab.log.append({"e": "Track", "c": lab.conn_of_context(), "r": rid})
 
         @P.oneway
-        def ountrack(self, rid):
+        def ountrack(self, rid, cid):
+            lab.log.append({"e": "Untrack", "c": cid, "r": rid})
             lab.current_context.untrack_resource(lab.resources[rid])
-            lab.log.append({"e": "Untrack", "c": lab.conn_of_context(), "r": rid})
 
         def untrack(self, rid):
             lab.current_context.untrack_resource(lab.resources[rid])
@@ -205,7 +206,7 @@ def run_scenarios(scens, servertype, timeout, seed, streaming=True):
                 via_oneway = scen_no % 3 == 1        # every third scenario tracks (and untracks) through oneway calls
                 for r in range(1, scen["ntrack"] + 1):
                     if via_oneway:
-                        victim.send(L.invoke_msg("target", "otrack", [r], ser=ser, seq=seq, flags=protocol.FLAGS_ONEWAY))
+                        victim.send(L.invoke_msg("target", "otrack", [r, victim.cid], ser=ser, seq=seq, flags=protocol.FLAGS_ONEWAY))
                     else:
                         call(victim, "target", "track", [r], ser, seq)
                     seq += 1
@@ -213,7 +214,7 @@ def run_scenarios(scens, servertype, timeout, seed, streaming=True):
                     sc.quiesce()        # the oneway threads have done their work
                 if scen["untrack"]:
                     if via_oneway:
-                        victim.send(L.invoke_msg("target", "ountrack", [1], ser=ser, seq=seq, flags=protocol.FLAGS_ONEWAY))
+                        victim.send(L.invoke_msg("target", "ountrack", [1, victim.cid], ser=ser, seq=seq, flags=protocol.FLAGS_ONEWAY))
                         sc.quiesce()
                     else:
                         call(victim, "target", "untrack", [1], ser, seq)
